@@ -94,7 +94,8 @@ def selStr (s : Option Selection) : String :=
     s!"{b2s s.found},{s.scriptIndex},{s.chosen},{ou s.langIndex},{req}"
 
 def cmds : List String :=
-  ["tags", "tagslang", "langcmp", "complex", "private", "scripttags", "shaper", "tagsel", "tagfeat", "tagplan"]
+  ["tags", "tagslang", "langcmp", "complex", "private", "scripttags", "shaper", "tagsel", "tagfeat", "tagplan",
+   "tagresolve"]
 
 def cfg : Cfg := tree
 
@@ -148,6 +149,14 @@ def handle (ts : List String) : Option String :=
       let gsub := match sels[0]? with | some (some s) => some s.chosen | _ => none
       let sh := match sc with | some s => categorize s gsub | none => .default
       s!"{shaperName sh} {selStr (sels[0]?.join)} {selStr (sels[1]?.join)}")
+  | ["tagresolve", _font, abs, d, sc, l, tags] => do
+    let tbs ← parseTables abs; let d ← d.toNat?; let sc ← optNat sc; let l ← xs l; let tags ← list tags
+    let lang := l.bind languageFromStr
+    pure (wrap (planFeatures cfg tbs sc lang d) fun feats =>
+      " ".intercalate (tags.map fun t =>
+        match feats.find? (fun f => f.tag == t) with
+        | some f => s!"{ou f.index0}/{ou f.index1}"
+        | none => "x"))
   | _ => none
 
 end RbModel.Drv.Tag
